@@ -479,6 +479,10 @@ pub fn run() {
     }
     let mut rep = Reporter::new("C39", args.seed);
     if let Some(case) = args.replay_case() {
+        // a replay descriptor of another stage / another test of this property: not ours, nothing to do
+        if case["engine"].as_str() != Some("hv_sim_b") || case["test"].as_str() != Some("c39_quorum_sim") {
+            return;
+        }
         let e = if case["flow"].as_str() == Some("join_responses") {
             replay::<Join>("C39", TEST, &case)
         } else {
